@@ -14,9 +14,11 @@ def depositSum (x : SB) (d : String) : Int := sumF (depIn d) x.str.streams
 structure StreamInv (x : SB) : Prop where
   nodup : NoDupKeys x.str.streams
   bank : BankInv x.bank
-  noVest : find? x.bank.vest Mstr = none
+  modNoVest : ∀ a, 1000 ≤ a → find? x.bank.vest a = none
   nonneg : ∀ key st, find? x.str.streams key = some st → 0 ≤ st.deposit
   backed : ∀ d, (x.bank.balOf Mstr d : Int) = depositSum x d
+
+theorem StreamInv.noVest {x : SB} (hi : StreamInv x) : find? x.bank.vest Mstr = none := hi.modNoVest Mstr (by decide)
 
 theorem calcValidatorFee_split (fee amount pay f : Int) (ha : 0 ≤ amount)
     (h : calcValidatorFee fee amount = .ok (pay, f)) : pay + f = amount ∧ 0 ≤ pay ∧ 0 ≤ f ∧
@@ -131,8 +133,9 @@ theorem claim_spec (x x' : SB) (now : Int) (blocked : Addr → Bool) (hbl : bloc
   constructor
   · exact nodup_insert _ _ _ hi.nodup
   · exact i2
-  · show find? b2.vest Mstr = none
-    rw [v2, v1]; exact hi.noVest
+  · intro a ha
+    show find? b2.vest a = none
+    rw [v2, v1]; exact hi.modNoVest a ha
   · intro key st' hk
     simp only [setStream, find_insert] at hk
     split at hk
@@ -190,7 +193,7 @@ theorem addDeposit_spec (x x' : SB) (now : Int) (blocked : Addr → Bool) (hbl :
     (h : addDeposit x now blocked r s denom amt = .ok x') :
     StreamInv x' ∧ x'.str.fee = x.str.fee ∧ x'.bank.supply = x.bank.supply := by
   simp only [addDeposit, bind_eq_ok, pure_eq_ok, require_eq_ok, decide_eq_true_eq] at h
-  obtain ⟨st, hst, _, hden, y, hy, bank, hbank, _, _, rfl⟩ := h
+  obtain ⟨st, hst, _, hden, y, hy, _, _, bank, hbank, _, _, rfl⟩ := h
   have hfind := findStream_ok _ _ _ _ _ hst
   -- the state after the optional settlement
   have hy' : StreamInv y.1 ∧ y.1.str.fee = x.str.fee ∧ y.1.bank.vest = x.bank.vest ∧ y.1.bank.supply = x.bank.supply ∧
@@ -231,8 +234,9 @@ theorem addDeposit_spec (x x' : SB) (now : Int) (blocked : Addr → Bool) (hbl :
   constructor
   · exact nodup_insert _ _ _ hiy.nodup
   · exact ib
-  · show find? bank.vest Mstr = none
-    rw [vb]; exact hiy.noVest
+  · intro a ha
+    show find? bank.vest a = none
+    rw [vb]; exact hiy.modNoVest a ha
   · intro key st' hk
     simp only [setStream, find_insert] at hk
     split at hk
@@ -258,7 +262,7 @@ theorem setNewFlowRate_spec (x x' : SB) (now : Int) (blocked : Addr → Bool) (h
     constructor
     · exact nodup_insert _ _ _ a1.nodup
     · exact a1.bank
-    · exact a1.noVest
+    · exact a1.modNoVest
     · intro key st' hk
       simp only [setStream, find_insert] at hk
       split at hk
@@ -274,7 +278,7 @@ theorem setNewFlowRate_spec (x x' : SB) (now : Int) (blocked : Addr → Bool) (h
     constructor
     · exact nodup_insert _ _ _ hi.nodup
     · exact hi.bank
-    · exact hi.noVest
+    · exact hi.modNoVest
     · intro key st' hk
       simp only [setStream, find_insert] at hk
       split at hk
@@ -297,8 +301,9 @@ theorem cancelStream_spec (x x' : SB) (now : Int) (blocked : Addr → Bool) (hbl
   constructor
   · exact nodup_erase _ _ a1.nodup
   · exact ib
-  · show find? bank.vest Mstr = none
-    rw [vb]; exact a1.noVest
+  · intro a ha
+    show find? bank.vest a = none
+    rw [vb]; exact a1.modNoVest a ha
   · intro key st' hk
     by_cases hkey : (r, s) = key
     · subst hkey; rw [find_erase_eq _ _ a1.nodup] at hk; cases hk
@@ -309,56 +314,63 @@ theorem cancelStream_spec (x x' : SB) (now : Int) (blocked : Addr → Bool) (hbl
     simp only [fOpt, depIn, depositSum]
     split <;> omega
 
-/-- every successful stream message keeps the escrow fully backed (senders other than the escrow) -/
-theorem streamOp_inv (now : Int) (a b : SB) (hi : StreamInv a)
-    (hsender : ∀ r s denom amt rate, createStream a now isBlocked r s denom amt rate = .ok b → s.decode ≠ some Mstr)
-    (hsender2 : ∀ r s denom amt d z, topUpDeposit a now isBlocked r s denom amt = .ok (b, d, z) → s.decode ≠ some Mstr)
-    (hlock : ∀ s d, 0 ≤ Coins.amountOf (lockedCoins a.bank (now / nsPerSec) s) d)
-    (hbl : isBlocked Mstr = true) (h : StreamOp now a b) :
+/-! the five message-server entry points -/
+
+theorem createStream_inv (a b : SB) (now : Int) (r s : AddrTok) (denom : String) (amt rate : Int) (hi : StreamInv a)
+    (hs : s.decode ≠ some Mstr) (hlock : ∀ sa d, 0 ≤ Coins.amountOf (lockedCoins a.bank (now / nsPerSec) sa) d)
+    (hbl : isBlocked Mstr = true) (h : createStream a now isBlocked r s denom amt rate = .ok b) :
     StreamInv b ∧ b.str.fee = a.str.fee ∧ b.bank.supply = a.bank.supply := by
-  cases h with
-  | create r s denom amt rate h =>
-    have hs := hsender r s denom amt rate h
-    simp only [createStream, bind_eq_ok, require_eq_ok, decodeM_eq_ok] at h
-    obtain ⟨sa, hsa, ra, hra, _, _, _, _, _, hnew, _, _, _, _, _, _, h⟩ := h
-    have hsne : sa ≠ Mstr := by intro e; subst e; exact hs hsa
-    have hfresh : find? a.str.streams (ra, sa) = none := by
-      simp only [contains, Bool.not_eq_true', Option.isSome_eq_false_iff, Option.isNone_iff_eq_none] at hnew
-      exact hnew
-    -- the empty stream placed by CreateNewStream
-    have hi1 : StreamInv { a with str := setStream a ra sa { denom := denom, deposit := 0, rate := rate, last := now, zero := 0, cancellable := true } } := by
-      constructor
-      · exact nodup_insert _ _ _ hi.nodup
-      · exact hi.bank
-      · exact hi.noVest
-      · intro key st' hk
-        simp only [setStream, find_insert] at hk
-        split at hk
-        · cases hk; simp
-        · exact hi.nonneg key st' hk
-      · intro d
-        show (a.bank.balOf Mstr d : Int) = sumF (depIn d) (insert a.str.streams (ra, sa) _)
-        rw [sumF_insert, hfresh, hi.backed d]
-        simp [fOpt, depIn, depositSum]
-    exact addDeposit_spec { a with str := setStream a ra sa { denom := denom, deposit := 0, rate := rate, last := now, zero := 0, cancellable := true } } b now isBlocked hbl ra sa denom amt hi1 hsne (hlock sa) h
-  | claim r s o h =>
-    simp only [claimStream, bind_eq_ok, require_eq_ok, decodeM_eq_ok] at h
-    obtain ⟨sa, _, ra, _, _, _, h⟩ := h
-    obtain ⟨h1, h2, h3, _⟩ := claim_spec a b now isBlocked hbl ra sa o hi h
-    exact ⟨h1, h2, h3⟩
-  | topup r s denom amt d z h =>
-    have hs := hsender2 r s denom amt d z h
-    simp only [topUpDeposit, bind_eq_ok, pure_eq_ok, require_eq_ok, decodeM_eq_ok, Prod.mk.injEq] at h
-    obtain ⟨sa, hsa, ra, _, _, _, st, _, _, _, x', hx', rfl, _⟩ := h
-    have hsne : sa ≠ Mstr := by intro e; subst e; exact hs hsa
-    exact addDeposit_spec a x' now isBlocked hbl ra sa denom amt hi hsne (hlock sa) hx'
-  | rate r s rate h =>
-    simp only [updateFlowRate, bind_eq_ok, require_eq_ok, decodeM_eq_ok] at h
-    obtain ⟨sa, _, ra, _, _, _, _, _, h⟩ := h
-    exact setNewFlowRate_spec a b now isBlocked hbl ra sa rate hi h
-  | cancel r s h =>
-    simp only [cancelStreamMsg, bind_eq_ok, require_eq_ok, decodeM_eq_ok] at h
-    obtain ⟨sa, _, ra, _, _, _, _, _, h⟩ := h
-    exact cancelStream_spec a b now isBlocked hbl ra sa hi h
+  simp only [createStream, bind_eq_ok, require_eq_ok, decodeM_eq_ok] at h
+  obtain ⟨sa, hsa, ra, hra, _, _, _, _, _, hnew, _, _, _, _, _, _, h⟩ := h
+  have hsne : sa ≠ Mstr := by intro e; subst e; exact hs hsa
+  have hfresh : find? a.str.streams (ra, sa) = none := by
+    simp only [contains, Bool.not_eq_true', Option.isSome_eq_false_iff, Option.isNone_iff_eq_none] at hnew
+    exact hnew
+  have hi1 : StreamInv { a with str := setStream a ra sa { denom := denom, deposit := 0, rate := rate, last := now, zero := 0, cancellable := true } } := by
+    constructor
+    · exact nodup_insert _ _ _ hi.nodup
+    · exact hi.bank
+    · exact hi.modNoVest
+    · intro key st' hk
+      simp only [setStream, find_insert] at hk
+      split at hk
+      · cases hk; simp
+      · exact hi.nonneg key st' hk
+    · intro d
+      show (a.bank.balOf Mstr d : Int) = sumF (depIn d) (insert a.str.streams (ra, sa) _)
+      rw [sumF_insert, hfresh, hi.backed d]
+      simp [fOpt, depIn, depositSum]
+  exact addDeposit_spec { a with str := setStream a ra sa { denom := denom, deposit := 0, rate := rate, last := now, zero := 0, cancellable := true } } b now isBlocked hbl ra sa denom amt hi1 hsne (hlock sa) h
+
+theorem claimStream_inv (a b : SB) (now : Int) (r s : AddrTok) (o : ClaimOut) (hi : StreamInv a)
+    (hbl : isBlocked Mstr = true) (h : claimStream a now isBlocked r s = .ok (b, o)) :
+    StreamInv b ∧ b.str.fee = a.str.fee ∧ b.bank.supply = a.bank.supply := by
+  simp only [claimStream, bind_eq_ok, require_eq_ok, decodeM_eq_ok] at h
+  obtain ⟨sa, _, ra, _, _, _, h⟩ := h
+  obtain ⟨h1, h2, h3, _⟩ := claim_spec a b now isBlocked hbl ra sa o hi h
+  exact ⟨h1, h2, h3⟩
+
+theorem topUpDeposit_inv (a b : SB) (now : Int) (r s : AddrTok) (denom : String) (amt d z : Int) (hi : StreamInv a)
+    (hs : s.decode ≠ some Mstr) (hlock : ∀ sa d, 0 ≤ Coins.amountOf (lockedCoins a.bank (now / nsPerSec) sa) d)
+    (hbl : isBlocked Mstr = true) (h : topUpDeposit a now isBlocked r s denom amt = .ok (b, d, z)) :
+    StreamInv b ∧ b.str.fee = a.str.fee ∧ b.bank.supply = a.bank.supply := by
+  simp only [topUpDeposit, bind_eq_ok, pure_eq_ok, require_eq_ok, decodeM_eq_ok, Prod.mk.injEq] at h
+  obtain ⟨sa, hsa, ra, _, _, _, st, _, _, _, x', hx', rfl, _⟩ := h
+  have hsne : sa ≠ Mstr := by intro e; subst e; exact hs hsa
+  exact addDeposit_spec a x' now isBlocked hbl ra sa denom amt hi hsne (hlock sa) hx'
+
+theorem updateFlowRate_inv (a b : SB) (now : Int) (r s : AddrTok) (rate : Int) (hi : StreamInv a)
+    (hbl : isBlocked Mstr = true) (h : updateFlowRate a now isBlocked r s rate = .ok b) :
+    StreamInv b ∧ b.str.fee = a.str.fee ∧ b.bank.supply = a.bank.supply := by
+  simp only [updateFlowRate, bind_eq_ok, require_eq_ok, decodeM_eq_ok] at h
+  obtain ⟨sa, _, ra, _, _, _, _, _, h⟩ := h
+  exact setNewFlowRate_spec a b now isBlocked hbl ra sa rate hi h
+
+theorem cancelStreamMsg_inv (a b : SB) (now : Int) (r s : AddrTok) (hi : StreamInv a)
+    (hbl : isBlocked Mstr = true) (h : cancelStreamMsg a now isBlocked r s = .ok b) :
+    StreamInv b ∧ b.str.fee = a.str.fee ∧ b.bank.supply = a.bank.supply := by
+  simp only [cancelStreamMsg, bind_eq_ok, require_eq_ok, decodeM_eq_ok] at h
+  obtain ⟨sa, _, ra, _, _, _, _, _, h⟩ := h
+  exact cancelStream_spec a b now isBlocked hbl ra sa hi h
 
 end Mainchain
